@@ -49,6 +49,7 @@ enum StateN {
 enum ContextN {ROOT, ARRAY, OBJECT, COMMENT1, COMMENT, LINECOMMENT, ENDCOMMENT};
 
 #define INDENT_CHAR '\t'
+#define ASL_XDL_MAX_DEPTH 2000 // deeper nesting is rejected: values are built and destroyed recursively
 
 Var Xdl::decode(const String& xdl)
 {
@@ -141,6 +142,11 @@ void XdlParser::parse(const char* s)
 	while(char c=*s++)
 	{
 		Context ctx = _context.top();
+		if (_context.length() > ASL_XDL_MAX_DEPTH)
+		{
+			_state = ERR;
+			return;
+		}
 		if(!_inComment)
 		{
 			if(c=='/' && _state != STRING && _state != ESCAPE && _state != QPROPERTY)
